@@ -170,6 +170,9 @@ type Gap struct {
 	Ctx      string // "halt-compiler-head": between __halt_compiler and its ';'
 	// BeforeCloseTag: the token after the gap is a close tag ("?>" acting as ';')
 	BeforeCloseTag bool
+	// NextIsKeywordName: the T_STRING after the gap is spelled like a reserved word
+	NextIsKeywordName bool
+	afterArrow        bool // the token before the gap is "->"
 }
 
 func triviaGaps(src string, p *Probe, ids *tokIDs) []Gap {
@@ -212,6 +215,17 @@ func triviaGaps(src string, p *Probe, ids *tokIDs) []Gap {
 		}
 		if next == int(';') && strings.HasPrefix(src[to:], "?>") && g.Ctx == "" {
 			g.BeforeCloseTag = true
+		}
+		if next == ids.id("T_STRING") {
+			// a name that is spelled like a reserved word (member names after -> and ::)
+			e := to
+			for e < len(src) && (src[e] == '_' || src[e] >= '0' && src[e] <= '9' || src[e] >= 'a' && src[e] <= 'z' || src[e] >= 'A' && src[e] <= 'Z') {
+				e++
+			}
+			if _, kw := c03Keywords[strings.ToLower(src[to:e])]; kw {
+				g.NextIsKeywordName = true
+				g.afterArrow = prevID == ids.id("T_OBJECT_OPERATOR")
+			}
 		}
 		gaps = append(gaps, g)
 	}
@@ -286,6 +300,16 @@ func triviaAlternatives(g Gap, rich bool) [][]string {
 			{tC("\r\n"), tH('s', 0, 1)},
 			{tC("\n"), tC("/*"), tH('c', 0, 1), tC("*/")},
 		}
+	}
+	if g.NextIsKeywordName && g.afterArrow {
+		// "$a-> list": PHP (and this lexer) read a reserved word as a member name only when
+		// nothing but white space stands between "->" and the name; a comment there makes
+		// the word a keyword again, in PHP too - not admissible trivia
+		alts := [][]string{{tH('w', 1, 2)}}
+		if rich {
+			alts = append(alts, []string{tH('w', 3, 3)})
+		}
+		return alts
 	}
 	alts := [][]string{
 		{tH('w', 1, 2)},
@@ -414,10 +438,17 @@ func (c *Check) triviaJobs(entry, ver string, every int, rich bool, fuel int64, 
 		}
 		for _, g := range triviaGaps(s.Src, p, ids) {
 			cands = append(cands, cand{s, g})
-			keys = append(keys, fmt.Sprintf("%d/%d/%s/%v", g.Prev, g.Next, g.Ctx, g.BeforeCloseTag))
+			keys = append(keys, fmt.Sprintf("%d/%d/%s/%v/%v", g.Prev, g.Next, g.Ctx, g.BeforeCloseTag, g.NextIsKeywordName))
 		}
 	}
 	use := pickDiverse(keys, every)
+	for ci, cd := range cands {
+		// the few gaps in special contexts (halt-compiler head, after a heredoc label, before a
+		// close tag) are always used
+		if cd.g.Ctx != "" || cd.g.BeforeCloseTag || cd.g.NextIsKeywordName {
+			use[ci] = true
+		}
+	}
 	usedSnip := map[int]bool{}
 	distinct := map[string]bool{}
 	for ci, cd := range cands {
@@ -441,6 +472,13 @@ func (c *Check) triviaJobs(entry, ver string, every int, rich bool, fuel int64, 
 			j.Params["prev"] = g.Prev
 			j.Params["next"] = g.Next
 			j.Params["ctx"] = g.Ctx
+			kind := "white space"
+			for _, sg := range alt {
+				if sg[0] == 'C' && strings.ContainsAny(sg[1:], "/#") {
+					kind = "a comment"
+				}
+			}
+			j.Params["trivia"] = kind
 			var cv []string
 			if cover != "" {
 				cv = []string{cover}
